@@ -35,6 +35,7 @@ WORLD_NOTES = {
     "C01": ("model_checking", "reference-map refinement: MCWorld Inv_C01 exhaustively on the store model + every event of every trace checked by TLC against the abstract effect of the operation (TraceWorld C01 checks)"),
     "C02": ("model_checking", "identifier discipline: MCWorld Inv_C02 + probes of every identifier ever issued (and forged ones) after every event"),
     "C04": ("exploration", "value ledger: every construction/clone/deserialization/drop of every individually identified value checked by TLC against the set of values reachable in the observed worlds after every event, and emptiness after dropping all worlds"),
+    "C05": ("other", "allocation protocol recorded by a global-allocator wrapper for every library call and checked by TLC (no free of a dead/unknown block, free/resize layout = allocation layout, no block left when all worlds are dropped), self-checking payloads on every read (type tag + checksum, poisoned quarantine for freed blocks), and process crashes inside safe calls recorded as events"),
     "C06": ("model_checking", "MCWorld Inv_C06 (every reachable store is accepted by deserialization; round trip preserves the map) + real round trips in 3 encodings with equality, content and lock-step twin checks"),
     "C10": ("model_checking", "MCWorld (2-world instance: Clone/CloneFrom preserve StoreInv and the map) + real clone/clone_from with content, token-freshness, frame and lock-step checks"),
     "C13": ("model_checking", "MCWorld Inv_C13 exhaustively + StoreInv evaluated by TLC on the hook's dump of every live world after every event"),
@@ -66,6 +67,8 @@ def relevant(prop, st):
         return g("op:query") + g("op:qmut")
     if prop == "C09":
         return g("query:par")
+    if prop == "C05":
+        return g("heap-events")
     return g("events")
 
 def known_split(prop, fails):
@@ -115,6 +118,8 @@ def run_world_prop(prop, tier, seed, replay):
         "trace_failures_for_property": len(fails),
         "exhaustive": False,
     }
+    if level == "other":
+        cov["explanation"] = text + ". NOT decided: an out-of-bounds access that stays inside live, unpoisoned memory and is not a component read (see DESIGN section 10)."
     if mc:
         cov["states"] = sum(m["distinct"] for m in mc)
         cov["transitions"] = sum(m["generated"] for m in mc)
